@@ -433,6 +433,28 @@ def cases(tier, seed):
                 seen.add(k)
                 if len(h) - len(prefix) == depth or _terminal(role, h):
                     yield dict(role=role, events=h, mode='quiescent', seed=seed)
+    # write faults: the connection is reset exactly when the provider is about to write the
+    # first PDU an event calls for; the reference behaviour is "transport connection closed"
+    # (Evt17) in the state the event found the machine in
+    for role in ('acceptor', 'requestor'):
+        for prefix in PREFIXES[role]:
+            m = Model(role)
+            ok = True
+            for ev in prefix[:-1] if role == 'requestor' and prefix == ['u:assoc'] else prefix:
+                if ev not in m.enabled():
+                    ok = False
+                    break
+                m.apply(ev, 0.0)
+            if not ok:
+                continue
+            pre = prefix[:-1] if role == 'requestor' and prefix == ['u:assoc'] else prefix
+            for ev in m.enabled():
+                if ev.startswith('t:') or ev == 'p:fin':
+                    continue
+                mm = m.clone()
+                e = mm.apply(ev, 0.0)
+                if e['wire']:
+                    yield dict(role=role, events=list(pre) + [ev], mode='writefault', seed=seed)
     n_walk = 1500 if tier == 'quick' else 60000
     for i in range(n_walk):
         yield dict(role='acceptor' if i % 2 else 'requestor', walk=40, mode='quiescent',
@@ -477,6 +499,8 @@ def _pick(model, rnd):
 def run_case(case):
     if case.get('mode') == 'concurrent':
         return run_concurrent(case)
+    if case.get('mode') == 'writefault':
+        return run_writefault(case)
     role = case['role']
     drv = Driver(role, 'c05/%s' % case['seed'])
     viol = []
@@ -739,3 +763,73 @@ def _merges(a, b):
         yield [a[0]] + rest
     for rest in _merges(a, b[1:]):
         yield [b[0]] + rest
+
+
+def run_writefault(case):
+    from .. import sched
+    role = case['role']
+    drv = Driver(role, 'c05wf/%s/%s' % (case['seed'], '.'.join(case['events'])))
+    viol = []
+    res = {'violations': viol, 'stats': {}}
+    try:
+        events = case['events']
+        for ev in events[:-1]:
+            if ev not in drv.model.enabled():
+                return _fin(res, drv, case, viol)
+            bad = drv.step(ev)
+            if bad:
+                return _fin(res, drv, case, viol)      # C05 quiescent mode reports these
+        ev = events[-1]
+        if ev not in drv.model.enabled():
+            return _fin(res, drv, case, viol)
+        if drv.pre_time(ev) is not None:
+            drv.step('t:expire')
+            if ev not in drv.model.enabled():
+                return _fin(res, drv, case, viol)
+        rig = drv.rig
+        armed = {'on': True}
+
+        def at_send():
+            t = rig.task
+            return armed['on'] and t.kind == 'sendall' and not t.done and rig.prov_sock is not None
+
+        def do_rst():
+            armed['on'] = False
+            rig.peer_rst()
+            rig.sim.bump('fault.rst_before_sendall')
+        rig.sim.actors.append(sched.Trigger('rst@send', at_send, do_rst))
+        state0 = drv.model.state
+        drv.history.append('!' + ev)
+        drv.inject(ev)
+        settled = rig.settle()
+        m = drv.model
+        if ev == 'u:assoc':
+            m.state, m.sock_open, m.started = 'Sta4', True, True
+        exp = {'wire': [], 'user': [], 'ev': ev + '+write-fails'}
+        if not armed['on']:
+            m._fsm('Evt17', exp, None, None)
+            m.sock_open = False
+            m.peer_fin = True
+        else:
+            exp = m.apply(ev, rig.sim.now)     # the write never happened (nothing to send)
+        if m.artim:
+            drv.deadline = rig.sim.now + ARTIM
+        else:
+            drv.deadline = None
+        for b in drv.compare(exp, settled, state0):
+            viol.append(_viol(b, role, drv, case))
+        extra = rig.take_indications()
+        if not viol:
+            rig.advance(ARTIM + 1.0)
+            rig.settle()
+            late = rig.take_indications()
+            if late:
+                viol.append(_viol('indication-after-end cell=(%s,%s+write-fails) %s' % (
+                    state0, ev, [_describe_user(i) for i in late]), role, drv, case))
+            if rig.loop_dead():
+                viol.append(_viol('loop-died cell=(%s,%s+write-fails)' % (state0, ev), role, drv,
+                                  case))
+        res['stats'] = {'fault.rst_before_sendall': 0 if armed['on'] else 1}
+        return _fin(res, drv, case, viol)
+    finally:
+        drv.close()
